@@ -210,6 +210,8 @@ class _CppTranslator(TranslatorBase):
     block_template = CPP_SOURCE_TEMPLATE
 
     def translate_enum(self, node):
+        """ Enumerators sharing one value print as the last of them, as str() of the Python codec does. """
+        last = dict((m.value, m.name) for m in node.members)
         return (
                 'template <>\n' +
                 'const char* print_traits<{0}>::to_literal({0} x)\n'.format(node.name) +
@@ -218,7 +220,7 @@ class _CppTranslator(TranslatorBase):
                     'switch (x)\n' +
                     '{\n' +
                     _indent(
-                        ''.join('case {0}: return "{0}";\n'.format(m.name) for m in node.members) +
+                        ''.join('case {0}: return "{0}";\n'.format(m.name) for m in node.members if last[m.value] == m.name) +
                         'default: return 0;\n'
                     ) +
                     '}\n'
